@@ -210,7 +210,10 @@ impl Network {
             .node(service_trip)
             .as_service_trip()
             .maximal_formation_count();
-        limit_of_type.map(|l| l.min(limit_of_node.unwrap_or(l)))
+        match (limit_of_type, limit_of_node) {
+            (Some(type_limit), Some(node_limit)) => Some(type_limit.min(node_limit)),
+            (type_limit, node_limit) => type_limit.or(node_limit),
+        }
     }
 
     pub fn get_depot_idx(&self, node_idx: NodeIdx) -> DepotIdx {
